@@ -44,16 +44,14 @@ def client():
 
 
 @st.composite
-def case_strategy(draw, tier="quick"):
-    two = draw(st.booleans())
+def op_list(draw, kind, two, allow_join, n_max, allow_buffer=True):
     ops = []
-    kind = "int"   # int | tuple
-    for _ in range(draw(st.integers(1, 4))):
-        cands = ["map", "accumulate", "buffer", "union"]
+    for _ in range(draw(st.integers(0, n_max))):
+        cands = ["map", "accumulate", "union"] + (["buffer"] if allow_buffer else [])
         if kind == "int":
             cands += ["partition", "sliding_window"]
-            if two and not any(o[0] == "zip2" for o in ops):
-                cands += ["zip2", "zip2"]
+            if two and allow_join and not any(o[0] in ("zip2", "union2") for o in ops):
+                cands += ["zip2", "zip2", "union2", "union2"]
         else:
             cands += ["map_tsum", "map_tsum"]
             if kind == "pair":
@@ -67,11 +65,12 @@ def case_strategy(draw, tier="quick"):
             kind = "int"
         elif op == "accumulate":
             rs = draw(st.booleans())
+            # start None: the first element becomes the state and is passed on as it is
             ops.append(["accumulate", "acc_rs" if rs else "acc_add",
-                        draw(st.sampled_from([0, 0, 5])), rs])
+                        draw(st.sampled_from([0, 5, None, None] if kind == "int" else [0, 5])), rs])
             kind = "int"
         elif op == "buffer":
-            ops.append(["buffer", draw(st.integers(1, 4))])
+            ops.append(["buffer", draw(st.integers(1, 8))])
         elif op == "union":
             ops.append(["union"])
         elif op == "partition":
@@ -83,11 +82,38 @@ def case_strategy(draw, tier="quick"):
         elif op == "zip2":
             ops.append(["zip2"])
             kind = "pair"
+        elif op == "union2":
+            ops.append(["union2"])
         elif op == "starmap_pair":
             ops.append(["starmap", "add"])
             kind = "int"
-    # keyword arguments for the user functions; 'key' and 'priority' are also parameter names
-    # of distributed.Client.submit
+    return ops, kind
+
+
+@st.composite
+def case_strategy(draw, tier="quick"):
+    two = draw(st.booleans())
+    # work on the first input only, then (optionally) the join with the second, scattered but
+    # otherwise untouched, input, then common work; often a buffer right before gather()
+    # (no buffer before the join: the interleaving of a buffered branch with a direct one is
+    # schedule-dependent in the local pipeline as well)
+    pre, kind = draw(op_list("int", two, False, 2, allow_buffer=not two))
+    ops = list(pre)
+    if two:
+        if kind != "int":
+            ops.append(["map", "tsum"])
+            kind = "int"
+        j = draw(st.sampled_from(["zip2", "union2", "union2"]))
+        ops.append([j])
+        kind = "pair" if j == "zip2" else kind
+    post, kind = draw(op_list(kind, two, False, 2))
+    ops += post
+    if not ops:
+        ops = [["map", "inc"]]
+    if draw(st.integers(0, 2)) == 0 and ops[-1][0] != "buffer":
+        ops.append(["buffer", draw(st.integers(1, 8))])
+    # keyword arguments for the user functions; 'priority' and 'retries' are also parameter
+    # names of distributed.Client.submit
     for op in ops:
         if op[0] in ("map", "starmap", "accumulate") and draw(st.integers(0, 2)) == 0:
             names = draw(st.lists(st.sampled_from(["z", "z", "priority", "w", "retries"]),
@@ -114,7 +140,7 @@ def build(case, dask):
         elif k == "starmap":
             node = node.starmap(FUN[op[1]], **ukw)
         elif k == "accumulate":
-            kw = {"start": op[2]}
+            kw = {"start": op[2]} if op[2] is not None else {}
             if op[3]:
                 kw["returns_state"] = True
             kw.update(ukw)
@@ -129,6 +155,9 @@ def build(case, dask):
             node = node.sliding_window(op[1], return_partial=op[2])
         elif k == "zip2":
             node = node.zip(sb)
+            used_b = True
+        elif k == "union2":
+            node = node.union(sb)
             used_b = True
     out = []
     timeline = []   # ("out", k) / ("cb", i) in the order they happened
@@ -271,6 +300,15 @@ def execute(case):
         v.append(("%s:completion-callback-earlier-than-local" % ID,
                   "ops %s inputs %s: (input, results delivered before its callback: dask, local) "
                   "%s" % (case["ops"], case["inputs"], bad[:5])))
+    elif all(o[0] in ("map", "accumulate", "buffer", "union") for o in case["ops"]) and any(
+            n_out < i + 1 for i, n_out in outs_before_cb(box.get("t", [])).items()):
+        # one-to-one segment: the k-th result derives from the k-th input, so input k's
+        # completion callback must not run before k+1 results were delivered
+        do = outs_before_cb(box.get("t", []))
+        bad = [(i, n_out) for i, n_out in do.items() if n_out < i + 1]
+        v.append(("%s:completion-callback-before-result" % ID,
+                  "ops %s inputs %s: (input, results delivered when its callback ran) %s" % (
+                      case["ops"], case["inputs"], bad[:5])))
     elif [r.count for r in drcs] != expect_counts:
         v.append(("%s:refcounts-differ" % ID, "ops %s inputs %s: dask counts %s local counts %s" % (
             case["ops"], case["inputs"], [r.count for r in drcs], expect_counts)))
